@@ -158,16 +158,25 @@ CLAIMS = {
         technique="Lean 4 proof (mutual induction over the tree for sortedness; list lemmas) + monitor on implementation outputs + differential correspondence",
         ref="DESIGN.md section 6 C07"),
     "C08": dict(
-        text="Kernel-checked: '.' is self::node(), '..' is parent::node(), '//' inserts descendant-or-self::node(), [n] keeps exactly the "
-             "nodes [position()=n] keeps for EVERY number n (via symmetry of IEEE equality on bit patterns), an accepted expression is a "
-             "derivation of the layered grammar generated from the source that spells the whole input. The completeness direction (every "
-             "spelling parses to the same AST) is stated and not proved (partial); it is covered by the tie: every generated AST in 6 "
-             "spellings must give one result on the real code, equal to the model's, plus fixed precedence/associativity/node-type cases.",
-        note="Partial proof (see text). Trusted: Lean kernel, translator, the abstraction CST->AST (Ast.lean), spelling generator. "
-             "Reviewed expression grammar (tools/ref/xpath.json) as reference: derivations of it and their one-character neighbours must "
-             "be read (error class and value) as the model over the reviewed grammar reads them.",
-        technique="Lean 4 proof (partial) + translator + metamorphic differential correspondence over spellings",
-        ref="DESIGN.md section 6 C08"),
+        text="Kernel-checked COMPLETENESS of the expression parser translated from the source: every well-formed SPELLING (concrete "
+             "expression = abstract expression + every surface choice: white space around every token, quotes, @/attribute::, omitted/"
+             "child:: axis, ., .., //, which grammar layers are passed through, i.e. where parentheses stand) within the nesting limit is "
+             "parsed, for every sufficient fuel, to exactly the abstract expression it denotes (spelling_parses); two spellings of one "
+             "abstract expression give the same value or error on every document (equivalent_spellings_evaluate_identically); the "
+             "abbreviations have the abstract syntax of their expansions. Also: [n] keeps exactly the nodes [position()=n] keeps for EVERY "
+             "number n, an accepted expression is a derivation of the layered grammar spelling the whole input (precedence per grammar), "
+             "nesting beyond MAX_EXPR_DEPTH is refused. Tie: every generated AST in 6 spellings must give one result on the real code, "
+             "equal to the model's, plus fixed precedence/associativity/node-type cases; each run evaluates the theorem's hypotheses on "
+             "every accepted expression text (evidence theorem_reach; default seed 15853/15909, all generator spellings).",
+        note="Theorem over `ok` spellings; the lexical side condition demands white space before -, div, mod, and, or whatever the left "
+             "operand ends with (needed only after a name): accepted texts like `8.1mod 2` are outside the theorem and covered by the tie "
+             "only. At the model's fixed fuel the theorems give `the expression, or the model's own fuel outcome`. Trusted: Lean kernel, "
+             "translator, evaluator model tied by correspondence. Reviewed expression grammar (tools/ref/xpath.json) as reference: "
+             "derivations of it and their one-character neighbours must be read (error class and value) as the model over the reviewed "
+             "grammar reads them.",
+        technique="Lean 4 proof (fuel-free PEG semantics, mutual induction over concrete syntax) + translator + metamorphic differential "
+                  "correspondence over spellings",
+        ref="DESIGN.md section 0 (Completeness of the expression parser), section 6 C08"),
     "C09": dict(
         text="Numbers are modelled as IEEE binary64 BIT PATTERNS with exact natural-number arithmetic (no Float): all functions reduce in "
              "the kernel. Kernel-checked for all arguments: substring selects exactly the characters whose position lies in the rounded "
